@@ -58,7 +58,8 @@ FaultKinds == {"undefined-symbol", "duplicate-label", "duplicate-constant", "dup
                "caret-r-case-folding-character", "rad50-case-folding-character", "mnemonic-case-folding-character",
                \* a diagnostic with spans in two files (the earlier definition far down in a long included file)
                "cross-file-duplicate-export", "cross-file-duplicate-constant", "cross-file-sob-forward", "non-ascii-digit",
-               "include-own-link-aborted", "include-own-dot-aborted", "include-own-link-nested-syntax-error"}
+               "include-own-link-aborted", "include-own-dot-aborted", "include-own-link-nested-syntax-error",
+               "unencodable-string-with-forward-chunk"}
 
 (* ---- terminal classes (the renderer's table has one entry per name) ---- *)
 AtomClasses == {"oct", "dec", "d89", "cnum", "caretnum", "negnum", "bignum", "name", "namecolon", "local", "localcolon",
